@@ -88,3 +88,59 @@ pub fn oracle_c01(s: &Sentence, m: &AbsModel, fails: &mut Vec<(String, String)>)
         }
     }
 }
+
+/// C06 oracle on the final sentence (after predict [+ filters] + fill_tags with a tag-predicting predictor):
+/// every token's tag row equals the brute-force classifier; stored candidate scores equal the sums
+pub fn oracle_c06(s: &Sentence, m: &AbsModel, fails: &mut Vec<(String, String)>) {
+    if !m.well_formed() || !m.tags_well_formed() {
+        return;
+    }
+    let n_tags = m.tag_models.iter().map(|t| t.tags.len()).max().unwrap_or(0);
+    let r = catch(|| {
+        if n_tags == 0 {
+            return Ok(());
+        }
+        if s.n_tags() != n_tags {
+            return Err(format!("n_tags {} != widest tag model {}", s.n_tags(), n_tags));
+        }
+        let toks: Vec<(usize, usize)> = s.iter_tokens().map(|t| (t.start(), t.end())).collect();
+        let mut it = s.iter_tokens();
+        for (st, en) in toks {
+            let tok = it.next().unwrap();
+            let (row, scores) = m.tag_spec(s.as_raw_text(), st, en);
+            let got: Vec<Option<String>> = tok.tags().iter().map(|t| t.as_ref().map(|c| c.to_string())).collect();
+            if got != row {
+                return Err(format!("token {:?} [{st},{en}) has tags {got:?}, the per-token linear classifiers give {row:?} (scores {scores:?})", tok.surface()));
+            }
+            // stored candidate scores
+            if let Ok(cands) = catch(|| tok.tag_candidates()) {
+                let surface = tok.surface();
+                if let Some(tm) = m.tag_models.iter().rev().find(|t| t.token == surface) {
+                    let mut exp: Vec<Vec<(String, i64)>> = vec![];
+                    let mut off = 0;
+                    for c in &tm.tags {
+                        if c.len() == 1 {
+                            exp.push(vec![(c[0].clone(), 0)]);
+                        } else {
+                            exp.push(c.iter().enumerate().map(|(k, t)| (t.clone(), scores[off + k])).collect());
+                            off += c.len();
+                        }
+                    }
+                    let got: Vec<Vec<(String, i64)>> =
+                        cands.iter().map(|v| v.iter().map(|(t, x)| (t.to_string(), *x as i64)).collect()).collect();
+                    if got != exp {
+                        return Err(format!("token {surface:?}: reported candidate scores {got:?} differ from the sums {exp:?}"));
+                    }
+                } else if !cands.is_empty() {
+                    return Err(format!("token {surface:?} has no tag model but reports candidates"));
+                }
+            }
+        }
+        Ok(())
+    });
+    match r {
+        Ok(Ok(())) => {}
+        Ok(Err(e)) => fails.push(("C06".into(), e)),
+        Err(e) => fails.push(("C06".into(), format!("panic: {e}"))),
+    }
+}
